@@ -1,15 +1,59 @@
-"""C07: see DESIGN.md section 6; protocol histories shared with the other worker/tick properties."""
+"""C07: a quiescent matcher converges to the from-scratch result (protocol half + append-hint text half)."""
+import itertools
+import os
+import random
+
 import ncommon
 import noracles
+import vlib
 from ncommon import prepare, replay, TRUSTED, ASSUMPTIONS  # noqa
+
+HAYSTACKS = ["foo", "foo$bar", "foo$", "foob", "bfoo", "a b", "a\\ b", "a\\", "a", "ab", "ba", "a$", "$a", "$", "b", "a$b", "a b$",
+             "ab$", "!a", "a!", "^a", "a^b", "'a", "a'b", "a\\b", "b a", "aa", "A B"]
+
+
+def append_pairs(seed, tier):
+    rng = random.Random(seed * 7 + 3)
+    alpha = ["a", "b", "$", "\\", " ", "!", "^", "'", "A"]
+    olds = ["".join(t) for L in (1, 2, 3) for t in itertools.product(alpha, repeat=L)]
+    sufs = ["".join(t) for L in (1, 2) for t in itertools.product(alpha, repeat=L)]
+    pairs = [(o, o + s_) for o in olds for s_ in sufs]
+    fixed = [("foo$", "foo$b"), ("a\\", "a\\ b"), ("foo", "foob"), ("^a", "^ab"), ("'a", "'ab"), ("a$", "a$ b"), ("!a", "!ab")]
+    if tier == "quick":
+        rng.shuffle(pairs)
+        pairs = pairs[:6000]
+    return fixed + pairs
+
+
+def append_check(ctx, res):
+    pairs = append_pairs(ctx["seed"], ctx["tier"])
+    os.makedirs(vlib.SCRATCH, exist_ok=True)
+    p = os.path.join(vlib.SCRATCH, "append_%d.txt" % os.getpid())
+    open(p, "w").write("".join("%s\t%s\n" % pr for pr in pairs))
+    rc, out, err, _ = vlib.run([ctx["hn"], "append", p], timeout=600)
+    os.unlink(p)
+    lines = out.splitlines()
+    if rc != 0 or len(lines) != len(pairs):
+        res["disagreements"].append({"what": "hn append failed: rc=%s %s" % (rc, err[-200:])})
+        return
+    nupd = 0
+    for (old, new), l in zip(pairs, lines):
+        st, bits = l.split(" ")
+        res["evaluations"] += 1
+        if st == "1":
+            nupd += 1
+            bad = [HAYSTACKS[k] for k, b in enumerate(bits) if b == "2"]
+            if bad and len(res["failures"]) < 200:
+                res["failures"].append({"class": "append", "what": "typing %r after %r is treated as a refinement (status Update: only the current matches are rescored) but the new pattern matches %r which the old pattern does not: those items are lost until the next full rescore" % (new, old, bad[:4]), "case": "", "pair": [old, new]})
+    res["extra"]["append_pairs"] = len(pairs)
+    res["extra"]["append_pairs_with_status_update"] = nupd
 
 
 def run(ctx, broken):
-    return ncommon.generic(ctx, noracles.c07, ncommon.RULE, extra_seed=7)
+    res = ncommon.generic(ctx, noracles.c07, ncommon.RULE + " Text half: %s (old text, old text + suffix) pairs over the alphabet {a b A $ \\ space ! ^ '} typed through MultiPattern::reparse with the append flag; whenever the status is Update every haystack of a 28-string pool matched by the new pattern must be matched by the old one." % ("6000 random" if ctx["tier"] == "quick" else "all 63k"), extra_seed=7)
+    append_check(ctx, res)
+    return res
 
 
 def known(f, kf):
-    for k in kf.get("known", []):
-        if k.get("property") == "C07" and k.get("class") == f.get("class"):
-            return k
     return None
